@@ -21,7 +21,9 @@ def _node(run, quick_shards=1, **kw):
 CHECKS = {
     "C10": _node("^TestC10"),
     "C11": _node("^TestC11"),
-    "C12": _node("^TestC12"),
+    # the long-lived scenario (half a minute of real time) is a part of its own: parts run concurrently
+    "C12": _node("^TestC12", parts=[{"pkg": "node", "run": "^TestC12(Close|InitFailure|Lives|CloseWithUnsentData)$"},
+                                    {"pkg": "node", "run": "^TestC12LongLived$"}]),
     "C13": _node("^TestC13"),
     "C14": _node("^TestC14"),
     "C15": _node("^TestC15", race=True),
